@@ -310,7 +310,17 @@ func (g *gen) damaged(b base) *layer {
 		}
 		l.damage = s
 	}
-	switch g.rnd.Intn(17) {
+	switch g.rnd.Intn(25) {
+	case 17, 18:
+		g.retryDamage(l, b)
+	case 19, 20:
+		g.redirectDamage(l, b)
+	case 21, 22:
+		g.encodingDamage(l, b)
+	case 23:
+		g.headerDamage(l, b)
+	case 24:
+		g.diskDamage(l, b)
 	case 0, 1:
 		if n == 0 {
 			r.Body = []byte{0}
@@ -433,6 +443,261 @@ func (g *gen) damaged(b base) *layer {
 		tag("content-length-smaller")
 	}
 	return l
+}
+
+// dying makes a copy of the response that ends badly after k bytes of its body.
+func (g *gen) dying(r *registry.Response, k int) (*registry.Response, string) {
+	d := r.Clone()
+	n := len(d.Body)
+	if k > n {
+		k = n
+	}
+	d.Body = d.Body[:k]
+	d.Chunks = nil
+	switch g.rnd.Intn(4) {
+	case 0:
+		d.Framing, d.Declared, d.End = registry.FrameLength, n+1, registry.EndClose
+		return d, "short-of-content-length"
+	case 1:
+		d.Framing, d.End = registry.FrameChunked, registry.EndClose
+		return d, "chunked-no-terminator"
+	case 2:
+		d.Framing, d.End = registry.FrameChunked, registry.EndReset
+		return d, "reset"
+	default:
+		d.Framing, d.Declared, d.End = registry.FrameLength, n+1, registry.EndReset
+		return d, "reset-short-of-content-length"
+	}
+}
+
+// retryDamage: the first request for the layer fails (dies after k bytes, or
+// is answered with an error status, or with other bytes); a second request
+// would get the correct response. The fetch as a whole must not produce
+// anything but the blob of the digest - with one request per fetch: nothing.
+func (g *gen) retryDamage(l *layer, b base) {
+	good := l.script
+	n := len(good.Body)
+	switch g.rnd.Intn(6) {
+	case 0:
+		bad := good.Clone()
+		bad.Status = []int{500, 502, 503, 429, 404}[g.rnd.Intn(5)]
+		l.script, l.more, l.damage = bad, []*registry.Response{good}, "retry:first-status-then-good"
+	case 1:
+		bad := good.Clone()
+		bad.Body = append([]byte("oops "), g.bytes(30)...)
+		l.script, l.more, l.damage = bad, []*registry.Response{good}, "retry:first-other-bytes-then-good"
+	case 2:
+		bad := good.Clone()
+		bad.RefuseConn = true
+		l.script, l.more, l.damage = bad, []*registry.Response{good}, "retry:first-refused-then-good"
+	default:
+		k := 0
+		if n > 0 {
+			k = g.rnd.Intn(n + 1)
+		}
+		bad, how := g.dying(good, k)
+		l.script, l.more, l.damage = bad, []*registry.Response{good}, "retry:first-dies("+how+")-then-good"
+		if g.rnd.Chance(1, 4) {
+			// ... and a third one, should anybody ask
+			l.more = append(l.more, good.Clone())
+		}
+	}
+}
+
+var redirectCodes = []int{301, 302, 303, 307, 308}
+
+func (g *gen) redirectTo() *registry.Response {
+	r := registry.New("", nil)
+	r.Status = redirectCodes[g.rnd.Intn(len(redirectCodes))]
+	r.Header.Set("Location", "next")
+	return r
+}
+
+// redirectDamage: the URI answers with a redirect (chain). What counts is the
+// response at the end of the chain.
+func (g *gen) redirectDamage(l *layer, b base) {
+	final := l.script
+	switch g.rnd.Intn(7) {
+	case 0, 1:
+		l.script, l.hops, l.damage = g.redirectTo(), []*registry.Response{final}, "none:redirected"
+		l.pristine = b.tar && b.comp != registry.Bzip2
+	case 2:
+		l.script, l.hops, l.damage = g.redirectTo(), []*registry.Response{g.redirectTo(), g.redirectTo(), final}, "none:redirected-3-hops"
+		l.pristine = b.tar && b.comp != registry.Bzip2
+	case 3:
+		// a redirect without Location is the final response
+		r := g.redirectTo()
+		r.Header.Del("Location")
+		r.Header.Set("Content-Type", final.Header.Get("Content-Type"))
+		r.Body = final.Body
+		l.script, l.damage = r, "redirect-without-location"
+	case 4:
+		// never-ending
+		l.script, l.hops, l.damage = g.redirectTo(), []*registry.Response{g.redirectTo()}, "redirect-loop"
+	case 5:
+		// 3xx that is not a redirect for the client
+		r := final.Clone()
+		r.Status = []int{300, 304, 305, 306}[g.rnd.Intn(4)]
+		r.Header.Set("Location", "next")
+		l.script, l.hops, l.damage = r, nil, "status-3xx-not-followed"
+	default:
+		// the target is damaged
+		bad := final.Clone()
+		if len(bad.Body) > 0 {
+			bad.Body[g.rnd.Intn(len(bad.Body))] ^= 0x10
+		} else {
+			bad.Status = 404
+		}
+		l.script, l.hops, l.damage = g.redirectTo(), []*registry.Response{bad}, "redirected-to-flipped-bit"
+	}
+}
+
+// encodingDamage: Content-Encoding. net/http undoes a gzip content coding it
+// asked for by itself; the digest is that of the entity, not of its coding.
+func (g *gen) encodingDamage(l *layer, b base) {
+	r := l.script
+	entity := r.Body
+	r.Chunks = nil
+	switch g.rnd.Intn(8) {
+	case 0, 1:
+		r.Body = registry.GzipBytes(entity, 1+g.rnd.Intn(9))
+		r.Header.Set("Content-Encoding", g.rnd.Pick("gzip", "gzip", "GZIP", "GZip"))
+		l.damage = "none:content-encoding-gzip"
+		l.pristine = b.tar && b.comp != registry.Bzip2
+	case 2:
+		// the description asks for a coding itself: the client hands out the coded bytes
+		r.Body = registry.GzipBytes(entity, 6)
+		r.Header.Set("Content-Encoding", "gzip")
+		l.headers = map[string][]string{"Accept-Encoding": {g.rnd.Pick("gzip", "identity", "gzip, zstd")}}
+		l.damage = "content-encoding-gzip-asked-by-description"
+		if g.rnd.Chance(1, 2) {
+			g.redigest(l)
+			l.damage += "+redigest"
+		}
+	case 3:
+		// claims a coding the body does not have
+		r.Header.Set("Content-Encoding", "gzip")
+		l.damage = "content-encoding-gzip-but-not-coded"
+	case 4:
+		r.Header.Set("Content-Encoding", g.rnd.Pick("zstd", "br", "deflate", "identity", "x-gzip", "compress", "gzip, gzip"))
+		l.damage = "none:content-encoding-not-undone"
+		if ce := r.Header.Get("Content-Encoding"); ce == "identity" || true {
+			// the client leaves these alone: the bytes are the blob
+			l.pristine = b.tar && b.comp != registry.Bzip2
+		}
+	case 5:
+		z := registry.GzipBytes(entity, 6)
+		z[g.rnd.Intn(len(z))] ^= 1 << g.rnd.Intn(8)
+		r.Body = z
+		r.Header.Set("Content-Encoding", "gzip")
+		l.damage = "content-encoding-gzip-flipped-bit"
+		if g.rnd.Chance(1, 2) {
+			g.redigest(l)
+			l.damage += "+redigest"
+		}
+	case 6:
+		z := registry.GzipBytes(entity, 6)
+		k := g.rnd.Intn(len(z))
+		r.Body = z[:k]
+		r.Header.Set("Content-Encoding", "gzip")
+		r.Framing = registry.FrameClose
+		l.damage = "content-encoding-gzip-truncated"
+		if g.rnd.Chance(1, 2) {
+			g.redigest(l)
+			l.damage += "+redigest"
+		}
+	default:
+		// two members in the coding
+		k := len(entity) / 2
+		r.Body = registry.GzipMembers([][]byte{entity[:k], entity[k:]}, 6)
+		r.Header.Set("Content-Encoding", "gzip")
+		l.damage = "none:content-encoding-gzip-2members"
+		l.pristine = b.tar && b.comp != registry.Bzip2
+	}
+}
+
+// headerDamage: request headers in the description.
+func (g *gen) headerDamage(l *layer, b base) {
+	l.headers = map[string][]string{}
+	for i, n := 0, 1+g.rnd.Intn(3); i < n; i++ {
+		switch g.rnd.Intn(5) {
+		case 0:
+			l.headers["Authorization"] = []string{"Bearer " + hex.EncodeToString(g.bytes(6))}
+		case 1:
+			l.headers["X-Verif"] = []string{"a", "b b", ""}
+		case 2:
+			l.headers["Range"] = []string{"bytes=0-9"}
+		case 3:
+			l.headers["Accept"] = []string{"application/vnd.oci.image.layer.v1.tar+gzip", "*/*;q=0.1"}
+		default:
+			l.headers["User-Agent"] = []string{"claircore/verif"}
+		}
+	}
+	l.damage = "none:request-headers"
+	l.pristine = b.tar && b.comp != registry.Bzip2
+	if l.api == "old" && g.rnd.Chance(1, 2) {
+		l.api = "new"
+	}
+	if _, ok := l.headers["Range"]; ok && g.rnd.Chance(1, 2) {
+		// a server that honours the range
+		r := l.script
+		r.Status = 206
+		if len(r.Body) > 10 {
+			r.Body = r.Body[:10]
+		}
+		r.Header.Set("Content-Range", fmt.Sprintf("bytes 0-9/%d", len(b.wire)))
+		l.damage = "range-honoured-206"
+		l.pristine = false
+		if g.rnd.Chance(1, 2) {
+			r.Status = 200 // ... and lies about it
+			l.damage = "range-honoured-but-200"
+			if g.rnd.Chance(1, 2) {
+				g.redigest(l)
+				l.damage += "+redigest"
+			}
+		}
+	}
+}
+
+// diskDamage: the spool file cannot take (all of) the payload.
+func (g *gen) diskDamage(l *layer, b base) {
+	n := len(b.payload)
+	opts := []int{0, 1, 511, 512, 513, n - 1, n, n + 1, 4095, 4096, 4097, n / 2}
+	d := opts[g.rnd.Intn(len(opts))]
+	if d < 0 {
+		d = 0
+	}
+	l.limited, l.disk = true, d
+	l.damage = "spool-file-limit"
+	if d >= n {
+		l.damage = "none:spool-file-limit-not-reached"
+		l.pristine = b.tar && b.comp != registry.Bzip2
+	}
+}
+
+// bigTar is a tar of 6..40 KiB: large enough for the fetcher's buffered
+// writer to have flushed part of it to the spool file before a transfer dies.
+func (g *gen) bigTar() ([]byte, []registry.File) {
+	var files []registry.File
+	n := 2 + g.rnd.Intn(4)
+	for i := 0; i < n; i++ {
+		g.uniq++
+		data := []byte(fmt.Sprintf("%d:", g.uniq))
+		if g.rnd.Chance(1, 2) {
+			data = append(data, g.bytes(2000+g.rnd.Intn(6000))...)
+		} else {
+			data = append(data, []byte(strings.Repeat(fmt.Sprintf("line %d of a text file\n", g.uniq), 100+g.rnd.Intn(300)))...)
+		}
+		files = append(files, registry.File{Name: fmt.Sprintf("f%d/%s", i, fileNames[g.rnd.Intn(len(fileNames))]), Data: data})
+	}
+	return registry.Tar(files, true), files
+}
+
+func (g *gen) bigBase() base {
+	p, files := g.bigTar()
+	comp := g.rnd.Pick(registry.Plain, registry.Gzip, registry.Zstd)
+	w, v := g.compress(p, comp)
+	return base{payload: p, files: files, comp: comp, variant: v, wire: w, tar: true}
 }
 
 func (g *gen) randomLayer() *layer {
